@@ -391,7 +391,7 @@ def seat_check(prop, tier, seed, work, replay):
         if mx >= 5 and prop == "C08":
             continue   # with the late-joiner history in the view the 5-seat model does not finish in an hour; 5 and 6 seats are explored on the real code
         mcs.append(generic_mc(work, "MCSeat.tla", "mcseat%d" % mx,
-                              dict(MaxSeats=str(mx), Players=players, Props=vlib.tla_set([prop]), Ignore=SEAT_IGNORE),
+                              dict(MaxSeats=str(mx), Players=players, Props=vlib.tla_set([prop]), Ignore=SEAT_IGNORE, WithReset="TRUE"),
                               invariants=["NoCrash"] if prop == "C18" else [], properties=["StepHolds"],
                               view="View" if prop == "C08" else "ViewNoHist", timeout=3400))
     proof = None
@@ -403,7 +403,7 @@ def seat_check(prop, tier, seed, work, replay):
         proof = tlaps_proof(work, "SeatNextProof.tla")
     if prop == "C08" and tier == "thorough":
         proof = tlaps_proof(work, "SeatBlindsProof.tla")   # 343 obligations, about 90 s: thorough tier only
-    mc_cmp = generic_mc(work, "MCSeat.tla", "mcseatcmp", dict(MaxSeats="3", Players="{1,2,3,4}", Props="{}", Ignore="{}"), view="CmpView")
+    mc_cmp = generic_mc(work, "MCSeat.tla", "mcseatcmp", dict(MaxSeats="3", Players="{1,2,3,4}", Props="{}", Ignore="{}", WithReset="TRUE"), view="CmpView")
     for m in mcs:
         if not m["ok"]:
             print("MODEL-NOTE: clauses of %s violated in the MODEL (%s): not a verdict (R1)" % (prop, m["violated"]))
@@ -482,10 +482,7 @@ def seat_check(prop, tier, seed, work, replay):
         dd = work.sub("repro")
         desc = dict(kind=info["kind"], clause=v["clause"], failing_line=line)
         if info["kind"] == "seat-script":
-            s = None
-            for raw in open(info["scripts"]):
-                if raw.strip() and json.loads(raw)["run"] == line["run"]:
-                    s = json.loads(raw)
+            s = vlib.find_script(info["scripts"], line["run"])
             if s is None:
                 return False, None
             desc["script"] = s
@@ -636,10 +633,6 @@ def reg_check(prop, tier, seed, work, replay):
     both = []
     for mx, mn, reg in T["explore"]:
         f, scr = os.path.join(d, "explore%d%d%d.ndjson" % (mx, mn, reg)), os.path.join(d, "explore%d%d%d.scripts" % (mx, mn, reg))
-        st = vlib.drive(binary, ["reg-explore", "-max", mx, "-min", mn, "-maxreg", reg, "-maxbatch", 3, "-maxout", 2, "-repeat", T["repeat"], "-o", f, "-scripts", scr,
-                                 "-settle", T["settle"] if prop == "C20" else 0], timeout=3600)
-        stats["explore%d%d%d" % (mx, mn, reg)] = st
-        files[f] = scr
         m = next((x for x in mcs if x["scope"].get("MX") == str(mx) and x["scope"].get("MN") == str(mn) and x["scope"].get("MaxReg") == str(reg)
                   and x["scope"].get("WithSettle") == "FALSE"), None)
         if m is None:
@@ -649,6 +642,12 @@ def reg_check(prop, tier, seed, work, replay):
             if not m["ok"]:
                 print("MODEL-NOTE: clauses of %s violated in the MODEL (%s): not a verdict (R1)" % (prop, m["violated"]))
             mcs.append(m)
+        # (a changed regulator may have a much larger graph than the model: the exploration stops at 1.3 x the model's size)
+        st = vlib.drive(binary, ["reg-explore", "-max", mx, "-min", mn, "-maxreg", reg, "-maxbatch", 3, "-maxout", 2, "-repeat", T["repeat"], "-o", f, "-scripts", scr,
+                                 "-max-states", int(m["distinct"] * 1.3) + 500,
+                                 "-settle", T["settle"] if prop == "C20" else 0], timeout=3600)
+        stats["explore%d%d%d" % (mx, mn, reg)] = st
+        files[f] = scr
         both.append({"scope": {"max": mx, "min": mn, "registrants": reg, "batch": 3, "eliminations_per_sync": 2},
                      "real_states": st.get("states"), "real_transitions": st.get("transitions"), "model_states": m["distinct"],
                      "states_not_rebuilt_by_replay": st.get("unreproduced_states"), "settle_episodes": st.get("settle_episodes")})
@@ -666,10 +665,7 @@ def reg_check(prop, tier, seed, work, replay):
         return "%s|op=%s" % (v["clause"], (line or {}).get("op"))
 
     def repro(v, line, rs):
-        script = None
-        for raw in open(files[v["src"]]):
-            if raw.strip() and json.loads(raw)["run"] == line["run"]:
-                script = json.loads(raw)
+        script = vlib.find_script(files[v["src"]], line["run"])
         if script is None:
             return False, None
         out = run_script(script, work.sub("repro"), repeat=25)
